@@ -22,6 +22,7 @@ RtFails(ln) ==
 TamperFails(ln) ==
   (IF ln.res = "plain_different" THEN {"modified_blob_decrypted_to_different_plaintext"} ELSE {})
   \cup (IF ln.res = "plain_ok" /\ ln.sealed THEN {"change_to_ciphertext_tag_nonce_or_wrapped_key_was_accepted"} ELSE {})
+  \cup (IF ln.res = "plain_ok" /\ ln.bound THEN {"change_to_sid_root_key_id_position_or_key_nonce_was_accepted"} ELSE {})   \* fields the KEK is bound to
 TamperDrift(ln) == \A i \in 1 .. Len(ln.allowed) : ln.allowed[i] # ln.res
 
 (* C19: fold NoReuse over a history of protect events with interned values                          *)
